@@ -66,7 +66,9 @@ def load(numeric="double", tier="quick"):
     if key not in _cache:
         _cache[key] = Facts(os.path.join(work, "facts_%s.json" % TAG[numeric]), numeric)
         bad = _cache[key].driver_diagnostics()
-        if bad:
+        if bad and not _cache[key].repo_diagnostics():
+            # (with an error inside /repo/include the driver's own errors are consequences of it: the checks go on with
+            # what was instantiated, and core.Check.wellformedness reports the ill-formed construct if they cannot finish)
             raise AnalysisBroken("generated driver does not type-check (%s): %s at %s"
                                  % (numeric, bad[0]["msg"], bad[0]["loc"]))
     return _cache[key]
